@@ -46,7 +46,7 @@ func init() {
 		Rule: "seeded random operation sequences (Write/Read/Delete/ExpireAll/DeleteAll/Len/Walk/Load/Store with ctx options none,+1h,-1s,-2h,ttl0,SkipRead) over a hostile key alphabet " +
 			"on ShardedMap, SyncMap, ShardedMapOf[string] x TimeToLive{default,1h,Unlimited} x jitter{default,-1,1.0}; every result is compared with a reference map-with-expiry; " +
 			"a case is one sequence; distinct_nontrivial counts distinct (backend,config,op-kind/state-class trace hash) of sequences with >=5 ops that exercised at least one expired or deleted entry",
-		Required: []string{"op.Read", "op.Write", "op.Delete", "op.ExpireAll", "op.DeleteAll", "op.Walk", "op.Len", "op.Load", "op.Store", "read.expired_with_value", "read.skipread", "write.noncomparable", "write.shared_ctx", "write.skipread_ctx", "bulk.cases"},
+		Required: []string{"op.Read", "op.Write", "op.Delete", "op.ExpireAll", "op.DeleteAll", "op.Walk", "op.Len", "op.Load", "op.Store", "read.expired_with_value", "read.skipread", "write.noncomparable", "write.shared_ctx", "write.skipread_ctx", "bulk.cases", "keys.long_pairs_differing_in_the_middle"},
 		Assumptions: []string{
 			"wall clock is not stepped during a run; entry states use TTL margins of >=1s so scheduling delays cannot flip fresh/expired",
 			"janitor does not fire (DeleteExpiredJobInterval left at 1h)",
@@ -107,6 +107,10 @@ func c07Case(b *Batch, idx int) {
 	strat := c16Strategies[rng.Intn(3)]
 	be := newBackend(kind, cache.Config{TimeToLive: tc.ttl, ExpirationJitter: jit, EvictionStrategy: strat})
 	keys := keyAlphabet(rng)
+	if rng.Intn(8) == 0 {
+		keys = midPairKeys(rng) // long keys that share prefix, suffix and length
+		b.R.Count("keys.long_pairs_differing_in_the_middle", 1)
+	}
 	if len(keys) > 9 {
 		rng.Shuffle(len(keys), func(i, j int) { keys[i], keys[j] = keys[j], keys[i] })
 		keys = keys[:6+rng.Intn(4)]
